@@ -9,7 +9,9 @@
 (*        that does not match fails: hs = FALSE), the id behind            *)
 (*        get_cert_info(), get_reload_count(), whether get_last_reload()   *)
 (*        changed during the step, and whether a TLS session established   *)
-(*        before still carries data                                        *)
+(*        before still carries data; srv = the leaf a TCP connection to a  *)
+(*        running Server (new_with_reloadable_tls + listen) was served     *)
+(*        with - the first connection it accepts after the step            *)
 (* The validator runs CertReload!AfterReload itself and compares.          *)
 (***************************************************************************)
 EXTENDS CertReload, IOUtils
@@ -31,6 +33,8 @@ Apply(s, e) ==
       [] e.ev = "obs" ->
             IF ~e.hs THEN No(s, "new connections cannot complete a handshake (certificate and key not loaded as a pair)")
             ELSE IF e.leaf # s.srv.active THEN No(s, "handshakes are not served with the certificate of the last successful reload")
+            ELSE IF "srv" \in DOMAIN e /\ e.srv # s.srv.active
+                 THEN No(s, "a connection accepted by the running server after the step is not served with the certificate of the last successful reload")
             ELSE IF e.info # s.srv.info THEN No(s, "the reported certificate information does not describe the active certificate")
             ELSE IF e.count # s.srv.count THEN No(s, "the reload counter changed without a successful reload (or did not count one)")
             ELSE IF e.lastchanged # s.reloaded THEN No(s, "the time of the last reload changed without a successful reload (or did not change)")
